@@ -136,6 +136,11 @@ func TestC25ConcurrentReads(t *testing.T) {
 						cs.Accounts().GetAccount(addrs[(i/12)%len(addrs)])
 						cs.Accounts().GetLockStakeUntilBlock(addrs[(i/12)%len(addrs)])
 					case 11:
+						// the events endpoints: events of a committed height, decoded through the id tables
+						// that Commit extends
+						if hh := atomic.LoadUint64(&lastHeight); hh > 0 {
+							n.App.GetEventsDB().LoadEvents(uint32(hh - uint64(i/12%4)))
+						}
 						if hh := atomic.LoadUint64(&lastHeight); hh > 0 && i%40 == 11 {
 							if st, err := n.App.GetStateForHeight(hh); err == nil {
 								st.Export()
